@@ -130,34 +130,34 @@ TEXT = {
                      "on the tree with continuation-passing statements for the loop levels) + model/implementation correspondence + table-driven predicate",
     },
     "C01": {
-        "level": "Proof (partial: a fragment). Explored on the real entry points: for every error-free parse of the corpus, probes, mutations and expression soups, SQL() re-parses with the same entry point to a tree equal up to position values and is a fixed point. Two recorded known findings (join method, empty PRIMARY KEY) are recognised by call site. PROVED for the expression fragment M1 of C07 (MF/Props/C01Expr.lean, on the models of lexer.go, parseExpr..parseLit and the SQL() methods): the byte-level round trip `roundtrip_expr_partial` (accepted input => the SQL() text lexes and parses to the same tree, under the necessary hypothesis that no identifier token reads SAFE_CAST / REPLACE_FIELDS), `printed_lexes` (the lexer reads the printed text of ANY tree with lexer-producible leaves as exactly the printer's tokens), `fixed_point_expr`, and a kernel-checked counterexample showing the hypothesis necessary for the model (the corresponding defect of the Go code — `SAFE_CAST` written with back quotes did not re-parse — was found by this proof and is repaired).",
+        "level": "Proof (partial: a fragment). Explored on the real entry points: for every error-free parse of the corpus, probes, mutations and expression soups, SQL() re-parses with the same entry point to a tree equal up to position values and is a fixed point. Two recorded known findings (join method, empty PRIMARY KEY) are recognised by call site. PROVED for the expression fragment M1 of C07 (MF/Props/C01Expr.lean, on the models of lexer.go, parseExpr..parseLit and the SQL() methods): the byte-level round trip `roundtrip_expr_partial` (accepted input => the SQL() text lexes and parses to the same tree, under the necessary hypothesis that no identifier token reads SAFE_CAST / REPLACE_FIELDS), `printed_lexes` (the lexer reads the printed text of ANY tree with lexer-producible leaves as exactly the printer's tokens), `fixed_point_expr`, and a kernel-checked counterexample showing the hypothesis necessary for the model (the corresponding defect of the Go code — `SAFE_CAST` written with back quotes did not re-parse — was found by this proof and is repaired). Proved for the ParseType entry point (lexer and parser model, MF/Model/TypeParse.lean tied to memefish.ParseType by the TYPE channel: every field, position, Pos()/End(), SQL()): for every accepted input, SQL() lexes and parses back to the same tree up to positions and prints the same text (MF.Props.C01.type_roundtrip), and so does every hand-built well-formed tree with non-empty names (type_roundtrip_tree); the lexer side is a piece-by-piece lexing theorem for the printed text (print_lexes). The flag rt of the TYPE channel evaluates the same statement with Go's lexer on Go's SQL() for every OK request.",
         "design_ref": "DESIGN.md §4 C01",
         "note": "Theorems cover the expression fragment only and are about the models (tied to the code by the LEX and EXPR channels); everything else is exploration plus kernel-decided table obligations. Known findings are listed in known-findings.txt.",
         "technique": "Lean 4 proof for the expression fragment (lexer concatenation theorem + printer/lexer agreement + parser completeness) + table obligations + property predicate evaluated on the implementation",
     },
     "C02": {
-        "level": "Proof (partial: a fragment). Explored on the real entry points: significant-token sequence of the input (from the lexer, which C13/C14 cover by proof) vs that of SQL() modulo the documented canonicalisations, for every error-free parse of the explored inputs. PROVED for the expression fragment M1 of C07 (MF/Props/C01Expr.lean `lossless_expr`, on the models): the projected tokens (kind class + value; keyword case, `<>`/`!=`, quoting style, positions and trivia erased) of the SQL() text are those of the input, token by token, except that an identifier spelling a position keyword in x[kw(...)] comes back in canonical spelling (relation CanonRel; equality after canonTok).",
+        "level": "Proof (partial: a fragment). Explored on the real entry points: significant-token sequence of the input (from the lexer, which C13/C14 cover by proof) vs that of SQL() modulo the documented canonicalisations, for every error-free parse of the explored inputs. PROVED for the expression fragment M1 of C07 (MF/Props/C01Expr.lean `lossless_expr`, on the models): the projected tokens (kind class + value; keyword case, `<>`/`!=`, quoting style, positions and trivia erased) of the SQL() text are those of the input, token by token, except that an identifier spelling a position keyword in x[kw(...)] comes back in canonical spelling (relation CanonRel; equality after canonTok). Proved for the ParseType entry point (lexer and parser model): for every accepted input the tokens consumed by the parse and the tokens of SQL() read as the same description list - kinds, identifier names unquoted, simple type names up to case, '>>'/'<>' expanded (MF.Props.C01.type_lossless); evaluated on the implementation by flag rt of the TYPE channel.",
         "design_ref": "DESIGN.md §4 C02",
         "note": "Theorems cover the expression fragment only and are about the models (tied to the code by the LEX and EXPR channels); everything else is exploration plus kernel-decided table obligations. Known findings are listed in known-findings.txt.",
         "technique": "Lean 4 proof for the expression fragment (lexer concatenation theorem + printer/lexer agreement + parser completeness) + table obligations + property predicate evaluated on the implementation",
     },
     "C05": {
-        "level": "Exploration: range, token alignment (with the >> split), nesting and sibling order of every node of every returned tree; Lean theorems about Pos()/End() as functions of the tree exist (C04/C19) but the parser-side alignment is not proved.",
+        "level": "Proof (partial: a fragment). Explored on the real entry points: range, token alignment (with the >> split), nesting and sibling order of every node of every returned tree; Lean theorems about Pos()/End() as functions of the tree exist (C04/C19) but the parser-side alignment is not proved. Proved for the ParseType entry point: for every accepted input of the model (lexer + parser), every node - types, struct fields, identifiers - starts at a token start and ends at a token end ('>>' and '<>' counted as two one-byte tokens), satisfies 0 <= pos < end <= len, and contains its children in order without overlap (MF.Props.C05.type_positions); the known defect of a back-quoted simple type name (End() two bytes short) is excluded by hypothesis and reproduced by MF.Props.C05.type_positions_fails_backquoted.",
         "design_ref": "DESIGN.md §4 C05",
-        "note": "No Lean theorem is claimed for this property yet; the claimed level is exploration of the real entry points. Known findings are listed in known-findings.txt.",
-        "technique": "property predicate evaluated on the implementation (corpus, probes, token-level mutations, expression soups); Lean obligations pending",
+        "note": "Theorems cover the ParseType entry point only and are about the models (tied to the code by the LEX and TYPE channels); every other entry point and node kind is exploration. Known findings are listed in known-findings.txt.",
+        "technique": "Lean 4 proof for ParseType (function-for-function parser model with positions, grammar as an inductive relation, lexer window/concatenation theorems) + TYPE correspondence channel + property predicate evaluated on the implementation (corpus, reference grammar G, grafts, edits, mutations)",
     },
     "C06": {
-        "level": "Exploration: slice-and-reparse and splice-and-reparse for every node of accepted corpus/probe/mutated inputs.",
+        "level": "Proof (partial: a fragment). Explored on the real entry points: slice-and-reparse and splice-and-reparse for every node of accepted corpus/probe/mutated inputs. Proved for the ParseType entry point (lexer and parser model): for every accepted input and every type node n whose subtree has no SimpleType on a back-quoted token (known defect, End() two bytes short), the slice input[Pos:End] lexes and parses on its own to n with all positions decreased by Pos() (MF.Props.C06.type_exact; parser side type_exact_tokens, lexer side slice_lex = a window-locality theorem for the lexer model: no sentinel at the cut, positions shifted, a '>>' cut in the middle becomes '>'); StructField and Ident nodes are excluded (not types); the same statement is evaluated on the implementation for every type node of every OK request of the TYPE channel (flag ex).",
         "design_ref": "DESIGN.md §4 C06",
-        "note": "No Lean theorem is claimed for this property yet; the claimed level is exploration of the real entry points. Known findings are listed in known-findings.txt.",
-        "technique": "property predicate evaluated on the implementation (corpus, probes, token-level mutations, expression soups); Lean obligations pending",
+        "note": "Theorems cover the ParseType entry point only and are about the models (tied to the code by the LEX and TYPE channels); every other entry point and node kind is exploration. Known findings are listed in known-findings.txt.",
+        "technique": "Lean 4 proof for ParseType (function-for-function parser model with positions, grammar as an inductive relation, lexer window/concatenation theorems) + TYPE correspondence channel + property predicate evaluated on the implementation (corpus, reference grammar G, grafts, edits, mutations)",
     },
     "C08": {
-        "level": "Exploration: every golden input not marked !bad_ (the maintainers' rendering of each documented production) and its keyword/pseudo-keyword re-casings through the specific entry point and ParseStatement (equal trees), and ';'-joined lists through the list entry points. A documentation-template-driven generator is planned.",
+        "level": "Proof (partial: a fragment). Explored on the real entry points: every golden input not marked !bad_ (the maintainers' rendering of each documented production) and its keyword/pseudo-keyword re-casings through the specific entry point and ParseStatement (equal trees), and ';'-joined lists through the list entry points. A documentation-template-driven generator is planned. Proved for the ParseType entry point: the documented type grammar G_T (MF/Spec/TypeGrammar.lean, over token kinds, '>>' and '<>' standing for two one-byte tokens) is exactly what the model of ParseType accepts and the tree returned is the derivation tree: soundness (type_sound), completeness for ALL derivations with a concrete fuel (type_complete, type_complete_tree), unambiguity (type_unique); side condition HeadsOK: memefish rejects a named type whose first path component reads as a simple type name (string.x), which G_T derives. The model is tied to memefish.ParseType by the TYPE channel (all type texts up to a size bound in six spellings, all token sequences up to length 4 / 6 over the type vocabulary, mutations, soups).",
         "design_ref": "DESIGN.md §4 C08",
-        "note": "No Lean theorem is claimed for this property yet; the claimed level is exploration of the real entry points. Known findings are listed in known-findings.txt.",
-        "technique": "property predicate evaluated on the implementation (corpus, probes, token-level mutations, expression soups); Lean obligations pending",
+        "note": "Theorems cover the ParseType entry point only and are about the models (tied to the code by the LEX and TYPE channels); every other entry point and node kind is exploration. Known findings are listed in known-findings.txt.",
+        "technique": "Lean 4 proof for ParseType (function-for-function parser model with positions, grammar as an inductive relation, lexer window/concatenation theorems) + TYPE correspondence channel + property predicate evaluated on the implementation (corpus, reference grammar G, grafts, edits, mutations)",
     },
     "C09": {
         "level": "Proof (partial). Over facts regenerated from the source on every run and a big-step model of panic/recover: the error list is append-only (every assignment to .errors is `x.errors = append(x.errors, e)`), every Bad* literal "
